@@ -2,12 +2,16 @@
 import itertools, random
 from .. import core, hist, world as W
 
-MODULES = ['DsdVerif.Props.C01']
-GEN_FILES = []
+MODULES = ['DsdVerif.Props.C01', 'DsdVerif.Props.PySingleton']
+GEN_FILES = ['PySingleton']
 THEOREM_NAMES = ['wf_init', 'wf_lookup', 'wf_unique', 'wf_call', 'wf_drop', 'wf_steps', 'consistent_returns_same',
                  'conflict_raises_unchanged', 'name_only', 'refused_no_effect', 'create_only_when_free',
                  'complex_keys_admissible', 'complex_keys_unregistered', 'domain_name_only_creates_only_starred']
-THEOREMS = ['Dsd.C01.' + t for t in THEOREM_NAMES]
+THEOREMS = ['Dsd.C01.' + t for t in THEOREM_NAMES] + ['Dsd.PySingleton.' + t for t in [
+    # Singleton.__call__ / clear_singletons as written in the source (translator/pysingleton.py -> Gen/PySingleton.lean, regenerated on every
+    # run; the class with its two dictionaries is the state) equal the statement-level model callFull; the C01 theorems for the code as written
+    'py_call_eq_callFull', 'py_call_eq_call', 'py_call_empty_name', 'rep_init', 'py_consistent_returns_same', 'py_conflict_raises_unchanged',
+    'py_name_only', 'py_refused_no_effect', 'py_create_only_when_free', 'py_wf_call', 'initKeys_takeover', 'py_clear_singletons_spec']]
 ASSUMPTIONS = [
     'WeakValueDictionary semantics is modelled: an entry exists exactly while its value is strongly reachable (Model/Registry.lean, '
     'Model/World.lean: reachability from user handles through containment)',
@@ -23,6 +27,7 @@ MANIFEST = {
             'methods + reachability-based liveness) is tied to the code by exhaustive histories of bounded depth per class and long '
             'random histories over all classes; the invariant is also checked directly on the real registries after every step.',
     'note': 'CPython reference counting / WeakValueDictionary are modelled, not verified; see DESIGN.md section 3.',
+    'source_derived': 'STATEMENT LEVEL, FROM THE SOURCE (since batch 7): translator/pysingleton.py transcribes Singleton.__call__ and clear_singletons statement by statement from the working tree (Gen/PySingleton.lean; the class with _instanceNames / _instanceCanon as association lists of the live objects is the state; the identifiers call, the kwargs plumbing and the constructor are parameters, checked syntactically); PySingleton.py_call_eq_callFull proves result and exception equal to the statement-level model with no hypothesis and the registries related afterwards when the keys __init__ registers are free (initKeys_takeover: kernel-checked reason), and py_consistent_returns_same, py_conflict_raises_unchanged, py_name_only, py_refused_no_effect, py_create_only_when_free, py_wf_call are C01 for the code as written; stream Singleton.__call__.source-derived against the real metaclass.',
     'technique': 'Lean 4 invariant proof by induction over histories (generic registry state machine); correspondence check on histories',
 }
 
@@ -256,6 +261,9 @@ def run(res, proof):
             fix_disagreements(res, lines, impl, model)
     except core.DriverBroken as e:
         proof.problem('driver', str(e))
+    # Singleton.__call__ as translated from the working tree (Gen/PySingleton.lean) against the real metaclass on request / drop histories
+    from .pysingleton_stream import source_derived_pysingleton
+    source_derived_pysingleton(res, proof)
 
 
 def fix_disagreements(res, lines, impl, model):
